@@ -111,6 +111,12 @@ LIB_FRAME = re.compile(r"github\.com/bluenviron/(gohlslib/v2|mediacommon/v2)[./]
 HARNESS_FRAME = re.compile(r"\bverifsim\.")
 
 
+def frame_key(frame):
+    """'github.com/bluenviron/gohlslib/v2.(*muxerStream).rotateParts.func1({0x..})' -> '(*muxerStream).rotateParts.func1'"""
+    m = re.search(r"(?:gohlslib/v2|mediacommon/v2|go-astits)(?:/[\w/]+)?\.((?:\(\*?\w+\)\.)?[\w.]+)", frame)
+    return m.group(1) if m else frame.split("/")[-1][:60]
+
+
 def classify_crash(text):
     """Classifies a worker crash. Returns (kind, key, excerpt).
     kind: 'panic' (library panic), 'race' (race detector report), 'harness', 'unknown'."""
@@ -140,13 +146,13 @@ def classify_crash(text):
         # a panic raised inside library frames (the top non-runtime frame is a library frame)
         nonrt = [f for f in stack_funcs if not f.startswith(("runtime.", "panic(", "testing.", "internal/"))]
         if libf and nonrt and LIB_FRAME.search(nonrt[0]):
-            return "panic", libf[0].split("/")[-1].split("(")[0] if False else re.sub(r"\(0x[0-9a-f?, ]*\)$", "", libf[0].split("/")[-1]), (head + "\n" + first)[:6000]
+            return "panic", frame_key(libf[0]), (head + "\n" + first)[:6000]
         if "all goroutines are asleep" in head:
             return "unknown", "deadlock", tail[:4000]
         if harf and not libf:
             return "harness", "", (head + "\n" + first)[:4000]
         if libf:
-            return "panic", libf[0].split("/")[-1], (head + "\n" + first)[:6000]
+            return "panic", frame_key(libf[0]), (head + "\n" + first)[:6000]
         return "harness", "", (head + "\n" + first)[:4000]
     return "unknown", "", text[-3000:]
 
@@ -163,7 +169,7 @@ def classify_hang(dump):
         head = b.split("\n", 1)[0]
         if "sync.Mutex.Lock" in head or "[sync.Mutex.Lock" in head or "sync.(*Mutex).Lock" in b and "semacquire" in head:
             lockers.append(b)
-        elif "[running]" in head or "[runnable]" in head:
+        elif re.search(r"\[(running|runnable)", head):
             spinners.append(b)
     if lockers:
         f = re.findall(r"^(github\.com/bluenviron/gohlslib/v2[^\s(]*)\(", lockers[0], re.M)
